@@ -7,7 +7,9 @@
    argument's dynamic class (virtual) or nothing (non-virtual).  spec_dispatch (Spec/Dispatch.v) is the documented
    rule.  word_of_outcome mi (Run i) is definition i's thunk, the two error outcomes are the method's two stubs. *)
 From Y2 Require Import Model.Registry Model.Compile Spec.Dispatch.
+From Y2 Require Import Model.VptrPolicy.
 From Y2 Require Import Proofs.Interfaces Proofs.WalkProofs Proofs.SpecProofs Proofs.ResolveProofs Proofs.CompileProofs.
+From Y2 Require Import Proofs.LatBases Proofs.VptrPolicyProofs Proofs.PolicyCompose.
 
 (* C01_dispatch: for EVERY well-formed registry (any inheritance graph, any split of the registrations, any methods
    and definitions), every method of it, every placement of virtual and non-virtual parameters (m_shape) and every
@@ -55,6 +57,30 @@ Theorem C01_nonvirtual_parameters_transparent :
      else resolve_multi_first C (length (cm_vp m)) ss shape' (actuals_of C shape' cs)).
 Proof. exact resolve_shape_irrelevant. Qed.
 Print Assumptions C01_nonvirtual_parameters_transparent.
+
+(* ---- policy configurations: how an argument's dynamic type id becomes the v-table pointer C01_dispatch starts from.
+   The classes update publishes (published_classes: class index with the ids collected for it) never share an id; hence
+   with an unhashed v-table pointer vector and with a v-table pointer map every registered id is mapped to its own
+   class's v-table pointer, whatever the containers held before.  The hashed vector (fast / checked perfect hash) is
+   property C05 (C05_dynamic_vptr); direct / indirect v-table pointers inside a virtual_ptr are property C09. *)
+Theorem C01_published_ids_disjoint : forall R stale C, compile_with stale R = Ok C -> NoDup (class_keys R) ->
+  ids_disjoint (published_classes C).
+Proof. exact published_ids_disjoint. Qed.
+Print Assumptions C01_published_ids_disjoint.
+
+Theorem C01_class_keys_nodup : forall R, NoDup (class_keys R).
+Proof. exact class_keys_NoDup. Qed.
+Print Assumptions C01_class_keys_nodup.
+
+Theorem C01_lookup_vector : forall cs old, ids_disjoint cs ->
+  forall c t, In c cs -> In t (pc_ids c) -> vec_lookup (vec_publish cs old) t = Some (pc_vptr c).
+Proof. exact vec_lookup_registered. Qed.
+Print Assumptions C01_lookup_vector.
+
+Theorem C01_lookup_map : forall cs old, ids_disjoint cs ->
+  forall c t, In c cs -> In t (pc_ids c) -> map_lookup (map_publish cs old) t = Some (pc_vptr c).
+Proof. exact map_lookup_registered. Qed.
+Print Assumptions C01_lookup_map.
 
 (* Non-vacuity: the registry of probe P1 (a diamond-with-a-tail lattice, a two-parameter method with a non-virtual
    parameter between the virtual ones, three definitions) is compiled, and calls resolve as the rule says
